@@ -153,12 +153,34 @@ Example C08_no_hazard_examples :
   first_hazard (wg 8 2 101 true) a_init [Read 3; Skip 3; Read 2; Skip 40; Read 7; Skip 1; Read 9; Skip 500] = 0.
 Proof. exact (conj example_no_hazard_sep example_no_hazard_merged). Qed.
 
-(* OPEN clause (gap, see design/C08.md): the same statement for the context (fancy h2v2 / h1v2) main controller
-   with its funny-pointer lists; modelled executably (run_c), tied to the code by correspondence, not proved.
-   The full statement is kept visible; below it holds on computed histories (skips 0/1/2 rows before an iMCU
-   boundary, several skips in a row, skip past the bottom). *)
+(* Context (fancy h2v2 / h1v2) main controller with its funny-pointer lists: modelled executably (run_c) and tied
+   to the code by correspondence.  The statement over ALL context geometries is kept visible and is REFUTED by a
+   max_v_samp_factor = 4 geometry (hazard 6: the skip code recognises "next iMCU row already decoded" only 0/1
+   rows before the boundary); the witness is replayed on the implementation by the check. *)
 Definition C08_skip_read_equals_full_context_full : Prop :=
   forall g ops, ctx_geom_ok g -> Forall op_nonneg ops ->
+  let res := run_c g (c_init g) ops in
+  c_scan (fst res) = Z.min (gH g) (total_requested ops) /\
+  Forall (fun yp => snd yp = ideal_c g (fst yp)) (delivered (snd res)).
+
+Theorem C08_skip_read_equals_full_context_refuted : ~ C08_skip_read_equals_full_context_full.
+Proof. exact skip_read_equals_full_context_refuted. Qed.
+Print Assumptions C08_skip_read_equals_full_context_refuted.
+
+Theorem C08_refuted_context_v4 :
+  let ops := [Read 29; Skip 40; Read 5] in
+  first_hazard_c g141212 (c_init g141212) ops = 6 /\
+  In (69, (50, 51)) (delivered (snd (run_c g141212 (c_init g141212) ops))) /\
+  ideal_c g141212 69 = (34, 35).
+Proof. exact refuted_context_v4. Qed.
+Print Assumptions C08_refuted_context_v4.
+
+(* OPEN clause (gap, see design/C08.md): the same statement restricted to max_v_samp_factor = 2 (4:2:0 / 4:4:0
+   with fancy upsampling, the common case) is neither proved nor refuted; it holds on the computed histories
+   below (skips 0/1/2 rows before an iMCU boundary, several skips in a row, skip past the bottom) and on every
+   history of the correspondence. *)
+Definition C08_skip_read_equals_full_context_v2_full : Prop :=
+  forall g ops, ctx_geom_ok g -> gv g = 2 -> Forall op_nonneg ops ->
   let res := run_c g (c_init g) ops in
   c_scan (fst res) = Z.min (gH g) (total_requested ops) /\
   Forall (fun yp => snd yp = ideal_c g (fst yp)) (delivered (snd res)).
@@ -171,3 +193,9 @@ Example C08_context_controller_examples :
   ctx_run_okb g420x12 [Read 23; Skip 1; Read 1; Skip 24; Read 5; Skip 3; Skip 100] = true /\
   ctx_run_okb g420x12 [Skip 22; Skip 2; Skip 1; Read 2; Skip 23; Read 40] = true.
 Proof. exact ctx_examples. Qed.
+
+Example C08_context_v4_safe_example :
+  ctx_run_okb g141212 [Read 31; Skip 40; Read 5] = true /\
+  first_hazard_c g141212 (c_init g141212) [Read 31; Skip 40; Read 5] = 0 /\
+  first_hazard_c g420 (c_init g420) [Read 14; Skip 1; Read 1; Skip 16; Read 2; Skip 19; Read 1] = 0.
+Proof. exact ctx_examples_v4. Qed.
